@@ -158,7 +158,7 @@ search_harness!(c09_repetition_in_search, 4, {
     if has_moves_at(0, 0) {
         let mut best = i64::MIN;
         macro_rules! kid { ($j:expr) => { if ($j as u8) < g().nmoves[0] { let c = child(0, $j);
-            let v = if occ[c] >= 2 { 0 } else { -qvalue_at(c, 1) }; if v > best { best = v; } } }; }
+            let v = if occ[c] >= 2 { 0 } else { -q_engine(c, 1) }; if v > best { best = v; } } }; }
         kid!(0); kid!(1);
         vassert!(norm(score as i64) == norm(best), "C09: a move repeating a position for the third time is not scored as a draw (or a fresh position is)");
     }
